@@ -482,3 +482,47 @@ Proof.
         destruct (Hc h' Hcc) as [Hlc _]. apply (rel_merge _ hs h h' Hr Hin). apply IH; [lia|exact Hcc]. }
   intros h Hcr. eapply Hind; [apply Nat.le_refl|exact Hcr].
 Qed.
+
+(* ---- "drained or closed", literally.  A consumer ends with its handle either by closing it or by
+   reading it to EOF ([drains h]).  The propagation rules of schema/stream.go:
+     closed:  a copied stream is closed when ALL its copies are (parentStreamReader.close: the last
+              child closes the source); the sources of a merged stream are closed when it is
+              (multiStreamReader.close)
+     drained: a copied stream has been read to EOF as soon as ONE copy has (the children pull the shared
+              source); a merged stream ends only after every source has ended, so draining it drains them
+   Whatever the consumers do, every released stream is closed or drained at its source. *)
+Section DrainedOrClosed.
+Variable drains : handle -> bool.
+
+Inductive sclosed (hist : list hev) : handle -> Prop :=
+| sc_consume : forall h, In (HConsume h) hist -> drains h = false -> sclosed hist h
+| sc_copy : forall h cs, In (HCopy h cs) hist -> (forall c, In c cs -> sclosed hist c) -> sclosed hist h
+| sc_merge : forall hs h h', In (HMerge hs h') hist -> In h hs -> sclosed hist h' -> sclosed hist h.
+
+Inductive sdrained (hist : list hev) : handle -> Prop :=
+| sd_consume : forall h, In (HConsume h) hist -> drains h = true -> sdrained hist h
+| sd_copy : forall h cs c, In (HCopy h cs) hist -> In c cs -> sdrained hist c -> sdrained hist h
+| sd_merge : forall hs h h', In (HMerge hs h') hist -> In h hs -> sdrained hist h' -> sdrained hist h.
+
+Lemma all_or_some : forall (P Q : handle -> Prop) (cs : list handle),
+  (forall c, In c cs -> P c \/ Q c) -> (forall c, In c cs -> P c) \/ (exists c, In c cs /\ Q c).
+Proof.
+  intros P Q. induction cs as [|a cs IH]; intros H.
+  - left. intros c [].
+  - destruct (H a (or_introl eq_refl)) as [Ha|Ha].
+    + destruct (IH (fun c Hc => H c (or_intror Hc))) as [Hall|(c & Hc & Hq)].
+      * left. intros c [<-|Hc]; auto.
+      * right. exists c. split; [now right|exact Hq].
+    + right. exists a. split; [now left|exact Ha].
+Qed.
+
+Lemma released_closed_or_drained : forall hist h, released hist h -> sclosed hist h \/ sdrained hist h.
+Proof.
+  intros hist h H. induction H as [h Hc|h cs Hcp _ IH|hs h h' Hm Hin _ IH].
+  - destruct (drains h) eqn:E; [right; now apply sd_consume|left; now apply sc_consume].
+  - destruct (all_or_some _ _ cs IH) as [Hall|(c & Hc & Hd)].
+    + left. now apply (sc_copy hist h cs).
+    + right. now apply (sd_copy hist h cs c).
+  - destruct IH as [Hc|Hd]; [left; now apply (sc_merge hist hs h h')|right; now apply (sd_merge hist hs h h')].
+Qed.
+End DrainedOrClosed.
